@@ -18,7 +18,7 @@ from ..core.shrink import ShrinkBudget, ddmin_list
 META: Dict[str, Any] = {
     "id": "C12",
     "level": "exploration",
-    "pools": [{"backend": "c"}, {"backend": "py"}],
+    "pools": [{"backend": "c"}, {"backend": "py"}, {"backend": "c", "optimize": 1}],
     "tiers": {
         "quick": {"runs": 24000, "chunk": 150, "wall": 60, "chunk_wall": 240},
         "thorough": {"runs": 1500000, "chunk": 400, "wall": 900, "chunk_wall": 600},
@@ -57,7 +57,7 @@ BIG = [4094, 4095, 4000, 2048, 1791, 1792, 1793]
 
 
 def pool_of(rs: int, index: int) -> int:
-    return h64("pool", rs) % 2
+    return h64("pool", rs) % 3
 
 
 # ------------------------------------------------------------------ generation
@@ -143,6 +143,11 @@ ENTRY_POOL = [
     {"ep": "text", "kind": "passive"},
     {"ep": "text", "kind": "vpassive"},
     {"ep": "text", "kind": "active"},
+    {"ep": "text", "kind": "passive", "portions": 2},
+    {"ep": "text", "kind": "active", "portions": 3},
+    {"ep": "text", "kind": "vpassive", "portions": 5},
+    {"ep": "text", "kind": "passive", "mixed": 2},
+    {"ep": "text", "kind": "vactive", "mixed": 3},
     {"ep": "bus", "kind": "passive"},
     {"ep": "bus", "kind": "active"},
     {"ep": "bus", "kind": "vactive"},
@@ -379,7 +384,12 @@ def run_entry(trace: Dict[str, Any], ent: Dict[str, Any], frames: List[Tuple[int
         return W.feed_direct(frames, ent["kind"], mon, tx, ent.get("dt", "bytes"), pad, restarts,
                              consume=ent.get("consume", "all"))
     if ent["ep"] == "text":
-        return W.feed_text(text_lines(trace), ent["kind"], mon, tx, pad)
+        head = None
+        if ent.get("mixed"):
+            # the caller fed the first 1/mixed of the frames by hand before switching to the log reader
+            head = (frames, len(frames) // int(ent["mixed"]))
+        return W.feed_text(text_lines(trace), ent["kind"], mon, tx, pad, portions=int(ent.get("portions", 1)),
+                           head_direct=head)
     if ent["ep"] == "bus":
         return W.feed_bus(frames, ent["kind"], mon, tx, clock, pad)
     raise ValueError(ent)
